@@ -433,3 +433,20 @@ mod tests {
   }
 }
 
+
+// Verification hooks (off unless built with --cfg ellbur_totalmapper_verif):
+// public wrappers around the two private /proc/bus/input/devices extractors.
+#[cfg(ellbur_totalmapper_verif)]
+pub mod verif {
+  // (sysfs path, name) of every entry the --all-keyboards extractor calls a keyboard
+  pub fn extract_keyboards(text: &str) -> Vec<(String, String)> {
+    super::extract_keyboards_from_proc_bus_input_devices(text, false)
+      .into_iter().map(|d| (d.sysfs_path, d.name)).collect()
+  }
+  
+  // (sysfs path, name, is_keyboard) of every entry seen by the --dev-file extractor
+  pub fn extract_input_devices(text: &str) -> Vec<(String, String, bool)> {
+    super::extract_input_devices_from_proc_bus_input_devices(text, false)
+      .into_iter().map(|d| (d.sysfs_path, d.name, d.is_keyboard)).collect()
+  }
+}
